@@ -73,6 +73,10 @@ P = {
         technique="ast static analysis: dominance of the identity branch in coerce, documented-table agreement (docs vs source), coercer results re-checked (def-use)",
         text="Decides the shape of coerce and of the nodes calling a coercer: conforming data pass through unchanged, the boolean word table equals the documented one, only primitive targets convert, coercer results are re-checked (OptionalMethod: `is None`; CoercerMethod: inner method; LiteralMethod: value_map). Monotonicity over all types/data is not decided.",
     ),
+    "C15": dict(
+        technique="ast static analysis: structural necessary conditions of field-set tracking (serializer consults the tracked set exactly under exclude_unset; wrapper / API update shapes with locals inlined; constructor bypass unreachable for tracked classes)",
+        text="Partial. Decides four structural clauses: exclude_unset reaches the field strategies only as `option and support_fields_set(cls)`, forces the omitting strategy, and a field is emitted iff its name is in the tracked set; with_fields_set wraps __new__/__init__/__setattr__ once and each wrapper updates the set as documented; set_fields/unset_fields/fields_set/replace operate on the live set; the deserializer passes only present keys to the (wrapped) constructor and cannot take the __dict__-filling bypass for a tracked class. The contents of the set after an arbitrary history of calls on user classes is a runtime quantity and is NOT decided.",
+    ),
     "C16": dict(
         technique="ast static analysis: one-sorter-three-sites rule, name/ordering getter agreement, override precedence idiom table",
         text="Decides only that the three views pass identically-named elements built in the same sequence through the one ordering function, and that class-level overrides are looked up with subclass precedence. The permutation computed by sort_by_order is a runtime algorithm and is not decided.",
@@ -95,9 +99,7 @@ P = {
     ),
 }
 
-NOT_APPLICABLE = {
-    "C15": "the tracked set is the value of a per-instance set after a runtime history of wrapped __new__/__init__/__setattr__/set_fields/unset_fields/replace calls on user classes; no source-shaped clause is a necessary condition of the statement (a different, equally correct implementation would violate any structural proxy), so static analysis does not apply; the staleness of the with_fields_set registry is decided under C09",
-}
+NOT_APPLICABLE = {}
 
 ENGINES = [
     ("E1 repo model + call graph", "sa/model.py", "ast-derived modules / classes (C3 MRO) / functions / resolved callees (CHA + RTA for visitors)"),
